@@ -139,15 +139,20 @@ class Program(object):
             statement.fit_operand_width()
 
         # An EQU defined by an expression of constants is listed with its value; one that cannot be evaluated is an error
+        evaluated = {}
         for symbol, value in self.symbol_table.items():
-            if value.is_expression():
+            if value.is_expression() or value.is_address_expression():
                 try:
                     resolved = value.resolve(self.symbol_table)
+                    if resolved.is_address_expression():
+                        # an EQU defined by a label expression has the value of that expression
+                        resolved = resolved.calculate_address_offset(self.statements)
                 except Exception as error:
                     statement = next(statement for statement in self.statements if statement.label == symbol)
                     raise TranslationError(str(error), statement)
                 if resolved.is_numeric():
-                    self.symbol_table[symbol] = resolved
+                    evaluated[symbol] = resolved
+        self.symbol_table.update(evaluated)
 
         # Update the symbol table with the proper addresses
         for symbol, value in self.symbol_table.items():
